@@ -1,6 +1,7 @@
 """C18 — datasource payloads are applied faithfully or rejected, never half-applied."""
 import atexit
 import os
+import re
 import shutil
 import tempfile
 
@@ -18,10 +19,10 @@ SPEC_MODE = "spec"
 KEEP_PREFIX = 0
 SIZES = {"quick": 8000, "thorough": 60000}
 BATCH = 4000
-RULE = ("(plus real-file event sequences: 5 corpus + 4 random in quick, 60 random in thorough) payload sequences (3-12 deliveries on one or two of the five modules, fresh handlers and cleared managers per case); payloads are "
+RULE = ("deliveries go through a datasource.Base from one reused buffer (ds.deliver) or directly to the handler (ds.handle), mixed; (plus real-file event sequences: 5 corpus + 4 random in quick, 60 random in thorough) payload sequences (3-12 deliveries on one or two of the five modules, fresh handlers and cleared managers per case); payloads are "
         "encoded from rule values by an independent tag-driven encoder (shuffled/omitted/null/duplicate/unknown keys, boundary numbers, out-of-range "
         "and wrongly typed values), plus null elements, empty/null/[]/whitespace, truncations, garbage, exact redeliveries, A-B-A, valid-after-invalid, "
-        "same rule under another id / threshold within 1e-8 / signed zero; non-trivial = some delivery put rules in force AND the case contains a "
+        "same rule under another id / threshold within 1e-8 / signed zero, same-length payloads differing in one digit; non-trivial = some delivery put rules in force AND the case contains a "
         "rejection (err) or a redelivery of the payload just applied; distinct by (modules, per-delivery payload class and outcome)")
 
 MODS = ["flow", "system", "cb", "isolation", "hotspot"]
@@ -196,11 +197,27 @@ def variant(rng, mod, v):
     return w
 
 
+_NUM = re.compile(r'"(threshold|triggerCount|burstCount|maxQueueingTimeMs|statIntervalMs|retryTimeoutMs)":(-?[0-9.]*[0-9])')
+
+
+def same_length_variant(rng, text):
+    """the payload with the last digit of one numeric field changed (length unchanged); None if there is no such field"""
+    ms = list(_NUM.finditer(text))
+    if not ms:
+        return None
+    m = rng.choice(ms)
+    i = m.end(2) - 1
+    d = text[i]
+    nd = str(int(d) % 9 + 1)
+    return text[:i] + nd + text[i + 1:]
+
+
 def gen_case(rng, cid):
     mods = [rng.choice(MODS)]
     if rng.random() < 0.25:
         mods.append(rng.choice(MODS))
     ops, classes = [], []
+    via_base = rng.random() < 0.5       # the case's usual way of delivering; mixed with the other one
     hist = {m: [] for m in MODS}        # payload texts delivered per module
     lastvals = {m: None for m in MODS}
     for _ in range(rng.randint(3, 12)):
@@ -237,9 +254,17 @@ def gen_case(rng, cid):
         else:
             p, cl = rng.choice(["[", "]", "[,]", "[{]", "nul", "[nul]", "[{\"a\":}]", "[{\"a\"}]", "[01]", "[+1]", "[.5]", "[1.]", "[{'a':1}]", "[] x", "[1 2]",
                                 "[\"\\q\"]", "[\"a\nb\"]", "[NaN]", "[{\"a\":1,}]", "[1,]", "tru", "[1e]", "[-]", "{\"a\":1"]), "garbage"
+        # one in four deliveries is the previous payload of this module with one digit changed: same length, other content
+        # (a datasource that reuses its read buffer must not have it taken for "the same payload as last time")
+        if hist[m] and rng.random() < 0.12:
+            q = same_length_variant(rng, hist[m][-1])
+            if q is not None:
+                p, cl = q, "eqlen"
         hist[m].append(p)
-        ops.append(f"ds.handle {m} {hexp(p)}")
-        classes.append(cl)
+        # through a datasource.Base from one reused buffer (ds.deliver) or the handler directly with a fresh slice (ds.handle)
+        via = via_base if rng.random() < 0.85 else not via_base
+        ops.append(f"{'ds.deliver' if via else 'ds.handle'} {m} {hexp(p)}")
+        classes.append(cl + ("/b" if via else ""))
         if rng.random() < 0.12:
             ops.append(f"rules {rng.choice(MODS)}")                               # other modules are untouched
     return Case(cid, ops, tags=tuple(mods) + tuple(classes))
@@ -263,7 +288,7 @@ def densify(ops, rng):
     out = []
     for o in ops:
         out.append(o)
-        if o.startswith("ds.handle") and rng.random() < 0.4:
+        if o.startswith(("ds.handle", "ds.deliver")) and rng.random() < 0.4:
             out.append(o)
         if rng.random() < 0.4:
             out.append("rules " + rng.choice(MODS))
@@ -277,7 +302,7 @@ def nontrivial(case, impl):
     for l in impl:
         op, _, r = l.partition(" => ")
         t = op.split()
-        if t[0] != "ds.handle":
+        if t[0] not in ("ds.handle", "ds.deliver"):
             continue
         st = r.split(" ", 1)[0]
         outs.append(st)
